@@ -2,6 +2,7 @@ package props
 
 import (
 	"fmt"
+	"os"
 	"go/token"
 	"go/types"
 	"sort"
@@ -145,7 +146,10 @@ func c17(p *core.Program, r *core.Report) {
 			if _, ok := purityExceptions[[2]string{key, core.FuncName(w.Event.Fn)}]; ok {
 				// the exception for the de-normalising writer holds on a premise that is checked, not assumed
 				if core.FuncName(w.Event.Fn) == "xy/lineintersector.intersectionWithNormalization" {
-					if okP, _ := normalisedCopiesPremise(p); !okP {
+					if okP, whyP := normalisedCopiesPremise(p); !okP {
+						if os.Getenv("VERIF_PREMISE_DBG") != "" {
+							fmt.Fprintln(os.Stderr, "premise:", whyP)
+						}
 						bad = append(bad, w)
 						continue
 					}
@@ -419,6 +423,7 @@ func c16(p *core.Program, r *core.Report) {
 		}
 	}
 	// ---- rule 3: every copy is sized by the slice it copies
+	cloneDoesNotInspectRule(p, r, "clone-does-not-inspect-values")
 	const r3 = "clone-sized-by-source"
 	r.Rule(r3, "in every function statically reachable from a Clone method, each slice allocation has length len(x) of a slice loaded from the source (never a length derived from the layout, the stride or a constant): a Bounds or geometry whose slices are longer or shorter than its layout suggests is still copied whole", 8)
 	seenFn := map[*ssa.Function]bool{}
@@ -745,11 +750,8 @@ func immutableSingleton(o *eng.Obj) bool {
 }
 
 // normalisedCopiesPremise: the written reason for excepting intersectionWithNormalization's `intPt[k] += normPt[k]`
-// - "the result of safeHCoordinateIntersection applied to four fresh normalised copies" - as a check: (a) every
-// coordinate intersectionWithNormalization hands to the function whose result it writes into is a slice made in
-// intersectionWithNormalization itself; (b) in that callee (and in what it delegates to within the package) every
-// coordinate handed to centralendpoint.GetIntersection, which returns one of its arguments, is one of the
-// function's own parameters: nothing it can return is the caller's memory.
+// - "the result of safeHCoordinateIntersection applied to four fresh normalised copies" - as a check: analysed on
+// its own, intersectionWithNormalization writes nothing that is reachable from its parameters.
 var (
 	normPremiseOnce sync.Once
 	normPremiseOK   bool
@@ -768,69 +770,16 @@ func normalisedCopiesPremiseUncached(p *core.Program) (bool, string) {
 	if fn == nil {
 		return false, "intersectionWithNormalization not found"
 	}
-	// the slice written: the base of `intPt[k] += ...` stores
-	var src *ssa.Call
-	for _, b := range fn.Blocks {
-		for _, in := range b.Instrs {
-			st, ok := in.(*ssa.Store)
-			if !ok {
-				continue
-			}
-			if ia, isIA := st.Addr.(*ssa.IndexAddr); isIA {
-				if c, isC := ia.X.(*ssa.Call); isC && c.Call.StaticCallee() != nil && isCoordType(c.Type()) {
-					src = c
-				}
-			}
-		}
-	}
-	if src == nil {
-		return false, "the written coordinate is not the result of a call"
-	}
-	for _, a := range src.Call.Args {
-		if !isCoordType(a.Type()) {
-			continue
-		}
-		if !freshSlice(a) {
-			return false, "an argument of " + src.Call.StaticCallee().Name() + " is not a slice made in intersectionWithNormalization"
-		}
-	}
-	// callee side
-	seen := map[*ssa.Function]bool{}
-	var check func(f *ssa.Function, depth int) string
-	check = func(f *ssa.Function, depth int) string {
-		if f == nil || seen[f] || depth > 3 || len(f.Blocks) == 0 {
-			return ""
-		}
-		seen[f] = true
-		for _, c := range eng.Calls(f) {
-			g := c.Common().StaticCallee()
-			if g == nil {
-				continue
-			}
-			if core.FnPkgPath(g) == mod+"/xy/internal/centralendpoint" {
-				for _, a := range c.Common().Args {
-					if isCoordType(a.Type()) && paramIndex(f, a) < 0 {
-						return short(f) + " hands centralendpoint." + g.Name() + " a coordinate that is not one of its own parameters (" + a.String() + ")"
-					}
-				}
-			} else if g.Pkg == f.Pkg {
-				// a helper of the package must itself be handed parameters only, and is checked in turn
-				for _, a := range c.Common().Args {
-					if isCoordType(a.Type()) && paramIndex(f, a) < 0 {
-						if !freshSlice(a) {
-							return short(f) + " hands " + g.Name() + " a coordinate that is neither a parameter nor made here"
-						}
-					}
-				}
-				if why := check(g, depth+1); why != "" {
-					return why
-				}
-			}
-		}
-		return ""
-	}
-	if why := check(src.Call.StaticCallee(), 0); why != "" {
-		return false, why
+	// MODREF once more, with intersectionWithNormalization as the only entry point: its parameters (the segments as
+	// the caller gave them, and whatever record is handed along) are then the only external memory, and the other
+	// call site of centralendpoint.GetIntersection - intersection(), with the original coordinates - no longer
+	// pollutes the answer. The premise holds iff no write reachable from it targets that memory.
+	m := eng.NewModRef(p, []*ssa.Function{fn})
+	m.Solve()
+	ws := m.WritesToArgs(fn)
+	if len(ws) > 0 {
+		w := ws[0]
+		return false, fmt.Sprintf("%s at %s can write %s: what is de-normalised in place can be the caller's coordinate", w.Event.What, p.Pos(w.Event.Instr.Pos()), w.Target.String())
 	}
 	return true, ""
 }
